@@ -71,6 +71,64 @@ Proof.
   - apply Nat.ltb_ge in E. eapply insert_loop_good; eauto.
 Qed.
 
+(* ---- range insert from the vector itself ---- *)
+Lemma live_elem_abs (Q : slot -> Prop) st k : GInv Q st -> live_elem st k = nth_error (abs st) k.
+Proof.
+  intros (H1 & H2 & _). unfold live_elem, abs, get. destruct (k <? size st) eqn:E.
+  - apply Nat.ltb_lt in E. now rewrite nth_error_firstn_lt.
+  - apply Nat.ltb_ge in E. symmetry. apply nth_error_None. rewrite firstn_length. lia.
+Qed.
+
+Lemma live_elem_Q (Q : slot -> Prop) st k s : GInv Q st -> live_elem st k = Some s -> Q s.
+Proof.
+  intros HI E. rewrite (live_elem_abs Q) in E by auto. destruct HI as (_ & _ & H3).
+  eapply Forall_nth_error; eauto.
+Qed.
+
+Lemma insert_self_loop_good (Q : slot -> Prop) : forall n src key p st st' o,
+  insert_self_loop n src key p st = (st', o) -> GInv Q st -> key <= size st -> src + n <= size st ->
+  Good Q st st' o /\ size st <= size st' /\ (o = Done \/ o = Raised \/ o = Faulted).
+Proof.
+  induction n as [|m IH]; intros src key p st st' o H (H1 & H2 & H3) Hk Hs; simpl in H.
+  - inversion H; subst. repeat split; auto; discriminate.
+  - destruct (cap st <=? key) eqn:Ec.
+    + inversion H; subst. repeat split; auto; discriminate.
+    + apply Nat.leb_gt in Ec.
+      destruct (get_some st src) as [x Gx]; [lia|]. rewrite Gx in H.
+      assert (Qx : Q x).
+      { apply (Forall_nth_error _ _ src x H3). unfold abs. rewrite nth_error_firstn_lt by lia. exact Gx. }
+      destruct (assign_val st p key x) as [[st1 p1] o1] eqn:E.
+      pose proof (assign_val_frame _ _ _ _ _ _ _ E) as (F1 & F2 & F3).
+      pose proof (assign_val_Q Q _ _ _ _ _ _ _ E Qx H3) as Q1.
+      pose proof (assign_val_no_oos _ _ _ _ _ _ _ E ltac:(lia)) as NO.
+      pose proof (assign_val_outcomes _ _ _ _ _ _ _ E) as OC.
+      destruct o1; try (inversion H; subst; repeat split; auto; try lia; try congruence; try discriminate;
+                        destruct OC as [?|[?|?]]; congruence).
+      apply assign_val_cases in E.
+      destruct E as [(? & _)|[(? & _)|(_ & Hl & _ & ->)]]; try discriminate. simpl in *.
+      set (st2 := if key =? size st then _ else _) in H.
+      assert (W2 : GInv Q st2 /\ S key <= size st2 /\ cap st2 = cap st /\ size st <= size st2).
+      { subst st2. destruct (key =? size st) eqn:Ek; unfold GInv, abs in *; simpl in *.
+        - apply Nat.eqb_eq in Ek. subst key. rewrite upd_length. repeat split; auto; try lia.
+          apply Forall_firstn_S_upd; auto.
+        - apply Nat.eqb_neq in Ek. rewrite upd_length. repeat split; auto; try lia. }
+      destruct W2 as (W2 & K2 & C2 & S2).
+      apply IH in H; auto; try lia.
+      destruct H as ((G1 & G2 & G3 & G3') & G4 & G5).
+      repeat split; auto; try lia; try apply G1.
+Qed.
+
+Lemma insert_self_range_good (Q : slot -> Prop) p key a b st st' o :
+  insert_self_range p key a b st = (st', o) -> self_range_valid st a b = true -> GInv Q st ->
+  Good Q st st' o /\ size st <= size st' /\ (o = Done \/ o = Raised \/ o = Faulted).
+Proof.
+  unfold insert_self_range, self_range_valid. intros H Hv HI.
+  apply andb_prop in Hv. destruct Hv as (V1 & V2). apply Nat.leb_le in V1. apply Nat.leb_le in V2.
+  destruct (size st <? key) eqn:E.
+  - inversion H; subst. repeat split; auto; try apply HI; discriminate.
+  - apply Nat.ltb_ge in E. eapply insert_self_loop_good; eauto. lia.
+Qed.
+
 Lemma make_from_good (Q : slot -> Prop) p c xs st' o :
   make_from p c xs = (st', o) -> Forall Q xs -> GInv Q st' /\ cap st' = c /\ o <> OutOfStorage /\ o <> Skipped /\ (o = Done \/ o = Raised \/ o = Faulted).
 Proof.
